@@ -495,3 +495,63 @@ class ChildEnv:
 def mk_template(st, children):
     """a real liquid_core::Template whose elements are abstract children (Box<dyn Renderable>)"""
     return Adt('Template', None, [VecV([st.ref(c.abs(), True) for c in children])], ['elements'])
+
+
+# ---------------------------------------------------------------- tag token stream (TagTokenIter / TagToken) stub
+class TokenStream:
+    """abstract token iterator: tokens are ('value', name) or ('word', text).  The grammar guarantees tokens are one of
+    value / identifier / operator / punctuation words; token-level error construction returns an opaque error."""
+
+    def __init__(self, tokens, sid='T'):
+        self.tokens = list(tokens); self.sid = sid
+
+    def pos(self, st): return st.env.get('tokpos:' + self.sid, 0)
+
+    def token_abs(self, i):
+        kind, text = self.tokens[i]
+        def th(ctx, me, args, st):
+            m = method_of(ctx.callee)
+            if m == 'as_str':
+                return ret(st, st.ref(StrV(text if kind == 'word' else f'<{text}>', 'str')))
+            if m == 'expect_value':
+                if kind == 'value':
+                    return ret(st, Adt('TryMatchToken', 'Matches', [Abs('expr:' + text, EXPR_HANDLERS.get(text, _default_expr_handler), text)]))
+                return ret(st, Adt('TryMatchToken', 'Fails', [me]))
+            if m == 'expect_str':
+                want = st.deref_all(args[1]).concrete()
+                if kind == 'word' and text == want: return ret(st, Adt('TryMatchToken', 'Matches', [UNIT]))
+                return ret(st, Adt('TryMatchToken', 'Fails', [me]))
+            if m == 'expect_identifier':
+                if kind == 'word' and text.isidentifier(): return ret(st, Adt('TryMatchToken', 'Matches', [st.ref(StrV(text, 'str'))]))
+                return ret(st, Adt('TryMatchToken', 'Fails', [me]))
+            if m in ('raise_error', 'raise_custom_error'):
+                return ret(st, Adt('LiquidError', None, [Opaque(('msg', f'unexpected token {text}'))]))
+            return None
+        return Abs(f'token:{self.sid}:{i}:{text}', th, (kind, text))
+
+    def handler(self, ctx, me, args, st):
+        m = method_of(ctx.callee)
+        i = self.pos(st)
+        if m == 'next':
+            if i >= len(self.tokens): return ret(st, NONE)
+            st.env['tokpos:' + self.sid] = i + 1
+            return ret(st, Some(self.token_abs(i)))
+        if m == 'expect_next':
+            if i >= len(self.tokens): return ret(st, Err(Adt('LiquidError', None, [Opaque(('msg', 'unexpected end of tag'))])))
+            st.env['tokpos:' + self.sid] = i + 1
+            return ret(st, Ok(self.token_abs(i)))
+        if m == 'expect_nothing':
+            return ret(st, Ok(UNIT) if i >= len(self.tokens) else Err(Adt('LiquidError', None, [Opaque(('msg', 'trailing tokens'))])))
+        if m == 'raise_error':
+            return ret(st, Adt('LiquidError', None, [Opaque(('msg', 'token stream error'))]))
+        return None
+
+    def abs(self):
+        return Abs('tokens:' + self.sid, self.handler, self)
+
+
+EXPR_HANDLERS = {}
+
+
+def _default_expr_handler(ctx, me, args, st):
+    return None
